@@ -96,6 +96,9 @@ func normKey(recv, name string) string {
 	return "(" + recv + ")." + name
 }
 
+// keyPrefix[file] is prepended to the function keys of that file ("" for the root package, "network:" etc. for the others)
+var keyPrefix = map[string]string{}
+
 func ParseContracts(files []string) (*Contracts, error) {
 	cs := &Contracts{Blocks: map[string]*Block{}, Macros: map[string]*Macro{}}
 	var lastMacro *Macro
@@ -128,7 +131,7 @@ func ParseContracts(files []string) (*Contracts, error) {
 				if m == nil {
 					return nil, fmt.Errorf("%s:%d: bad func header %q", f, ln, body)
 				}
-				key := normKey(m[1], m[2])
+				key := keyPrefix[f] + normKey(m[1], m[2])
 				sub := ""
 				if m[4] != "" {
 					sub = m[4] + " " + m[5]
@@ -169,7 +172,7 @@ func ParseContracts(files []string) (*Contracts, error) {
 				if len(fs) < 2 {
 					return nil, fmt.Errorf("%s:%d: bad twin", f, ln)
 				}
-				tw := twinDecl{a: fs[0], b: fs[1], file: f, line: ln}
+				tw := twinDecl{a: fs[0], b: fs[1], file: f, line: ln, prefix: keyPrefix[f]}
 				for j := 2; j+1 < len(fs); j += 2 {
 					if fs[j] == "prop" {
 						tw.prop = fs[j+1]
@@ -254,8 +257,8 @@ func ParseContracts(files []string) (*Contracts, error) {
 		fh.Close()
 	}
 	for _, tw := range twins {
-		ka := twinKey(tw.a)
-		kb := twinKey(tw.b)
+		ka := tw.prefix + twinKey(tw.a)
+		kb := tw.prefix + twinKey(tw.b)
 		found := false
 		for _, b := range append([]*Block(nil), cs.Order...) {
 			if b.Key != ka {
@@ -285,6 +288,7 @@ func ParseContracts(files []string) (*Contracts, error) {
 }
 
 type twinDecl struct {
+	prefix           string
 	a, b, prop, file string
 	line             int
 }
